@@ -697,7 +697,9 @@ func ruleDecode(c *Ctx) *RuleResult {
 			want := `"\""+(*Lexer).consumeUntil(param#0,34)#0+"\""`
 			// the delimiter scanner is recognised by its shape (a lexer method taking the
 			// closing rune), not by its name
-			if regexp.MustCompile(`^"\\""\+\(\*\w+\)\.\w+\((param#0|\?),34\)#0\+"\\""$`).MatchString(got) {
+			// ... or the same text assembled by appending to a byte buffer: '"', the delimited text, '"'
+			appendForm := regexp.MustCompile(`^append\(append\(append\([^,()]*(\([^()]*\))?,\[34\]\),\(\*\w+\)\.\w+\((param#0|\?),34\)#0\),\[34\]\)$`)
+			if regexp.MustCompile(`^"\\""\+\(\*\w+\)\.\w+\((param#0|\?),34\)#0\+"\\""$`).MatchString(got) || appendForm.MatchString(got) {
 				r.ok("quoted-identifier", c.pos(calls[0].Pos()), fname(fn), "decoder input is "+got)
 			} else {
 				r.viol("quoted-identifier", c.pos(calls[0].Pos()), fname(fn), "decoder input is "+got+", wanted "+want)
